@@ -15,8 +15,9 @@ API_SLOTS = ["selector", "file", "fg", "bg", "tuned_fg"]
 
 
 def regen():
-    from translate import templates
+    from translate import templates, escapesig
     templates.generate()
+    escapesig.generate()        # CmGen/EscapeSig.lean: every placeholder of the report f-strings and how its value is obtained (CmProps/C19sig.lean)
 
 
 class Tree(html.parser.HTMLParser):
@@ -69,6 +70,8 @@ def render(kind, values):
 
 def check(run):
     run.proof = proof_status("C19", regenerate=regen)
+    from translate import escapesig as _esc
+    run.extra["source_translation_placeholders"] = _esc.summary()
     q = run.quick()
     repo_import()
     n = 400 if q else 12000
